@@ -39,7 +39,7 @@ vars == <<G, hist, done>>
 Tok(k) == [k |-> k, t |-> 0, n |-> ""]
 TokT(k, t) == [k |-> k, t |-> t, n |-> ""]
 Call(name) == [k |-> "CALL", t |-> 0, n |-> name]
-Parking == {"BEGIN", "LK", "LS", "WM", "LF", "NOTIFY", "JOIN", "SPAWN", "START", "WAIT"}
+Parking == {"BEGIN", "LK", "LS", "WM", "RM", "LF", "NOTIFY", "JOIN", "SPAWN", "START", "WAIT"}
 
 (* a draw goes through the MultiState lock while the bar is a member: decided when the draw is reached, under the bar state lock *)
 Draw == <<Tok("DRAW")>>
@@ -51,7 +51,7 @@ CallTokens(name) ==
                              THEN <<Tok("LK"), Tok("RS"), Tok("UK"), Tok("LS"), Tok("DRAW_IFNONE"), Tok("US")>>
                              ELSE <<Tok("LS"), Tok("LK"), Tok("RS"), Tok("DRAW_IFNONE"), Tok("UK"), Tok("US")>>
       [] name = "finish"  -> <<Tok("LS"), Tok("SETFIN")>> \o Draw \o <<Tok("US")>>
-      [] name = "println" -> <<Tok("LS")>> \o Draw \o <<Tok("US")>>
+      [] name = "println" -> <<Tok("LS"), Tok("WIDTH")>> \o Draw \o <<Tok("US")>>       \* BarState::println asks the target for its width first (read lock)
       [] name = "disable" -> <<Tok("LK"), Tok("STOPJOIN"), Tok("CLEARSLOT"), Tok("UK")>>
       [] name = "enable"  -> <<Tok("LK"), Tok("STOPJOIN"), Tok("CLEARSLOT"), Tok("SPAWN"), Tok("UK")>>
       [] name = "mp_println" -> <<Tok("WM"), Tok("UM")>>
@@ -62,7 +62,7 @@ CallerScript(c) ==
     <<Tok("BEGIN")>> \o (IF InitTicker /\ c = 1 THEN <<Call("enable")>> ELSE <<>>)
     \o [j \in 1..Len(Programs[c]) |-> Call(Programs[c][j])] \o <<Call("drop")>>
 
-G0 == [S |-> 0, K |-> 0, M |-> 0, F |-> [t \in Tickers |-> 0], stop |-> [t \in Tickers |-> FALSE], notified |-> [t \in Tickers |-> FALSE],
+G0 == [S |-> 0, K |-> 0, M |-> 0, MR |-> {}, F |-> [t \in Tickers |-> 0], stop |-> [t \in Tickers |-> FALSE], notified |-> [t \in Tickers |-> FALSE],
        slot |-> 0, fin |-> FALSE, removed |-> FALSE, handles |-> Len(Programs), dead |-> FALSE, tup |-> [t \in Tickers |-> FALSE],
        nt |-> 0,                                     \* tickers spawned so far
        cst |-> [c \in Callers |-> CallerScript(c)],  \* caller token stacks
@@ -76,7 +76,8 @@ Stack(g, x) == IF x[1] = "c" THEN g.cst[x[2]] ELSE g.tst[x[2]]
 SetStack(g, x, s) == IF x[1] = "c" THEN [g EXCEPT !.cst[x[2]] = s] ELSE [g EXCEPT !.tst[x[2]] = s]
 Owner(x) == IF x[1] = "c" THEN x[2] ELSE 100 + x[2]
 
-BsDrop(g) == (IF g.fin THEN <<>> ELSE <<Tok("SETFIN")>> \o Draw) \o <<Tok("SETDEAD")>>
+(* BarState::drop: an unfinished bar finishes (a draw), then the MultiProgress is told (mark_zombie: write lock) *)
+BsDrop(g) == (IF g.fin THEN <<>> ELSE <<Tok("SETFIN")>> \o Draw) \o <<Tok("ZOMBIE"), Tok("SETDEAD")>>
 
 (* Execute the non-parking tokens at the top of x's stack. *)
 RECURSIVE Run(_, _)
@@ -92,6 +93,9 @@ Run(g, x) ==
          ELSE CASE tk.k = "UK" -> push([g EXCEPT !.K = 0], <<>>)
                 [] tk.k = "US" -> push([g EXCEPT !.S = 0], <<>>)
                 [] tk.k = "UM" -> push([g EXCEPT !.M = 0], <<>>)
+                [] tk.k = "URM" -> push([g EXCEPT !.MR = @ \ {me}], <<>>)
+                [] tk.k = "WIDTH" -> push(g, IF Multi /\ ~g.removed THEN <<Tok("RM"), Tok("URM")>> ELSE <<>>)
+                [] tk.k = "ZOMBIE" -> push(g, IF Multi /\ ~g.removed THEN <<Tok("WM"), Tok("UM")>> ELSE <<>>)
                 [] tk.k = "UF" -> push([g EXCEPT !.F[tk.t] = 0], <<>>)
                 [] tk.k = "RS" -> push([g EXCEPT !.none[x[2]] = (g.slot = 0)], <<>>)
                 [] tk.k = "IFNONE_TICK" -> push(g, IF g.none[x[2]] THEN <<Tok("LS")>> \o Draw \o <<Tok("US")>> ELSE <<>>)
@@ -115,7 +119,8 @@ Run(g, x) ==
                       LET g1 == [g EXCEPT !.tup[x[2]] = FALSE] IN
                       push(g1, IF g1.handles = 0 /\ ~g1.dead /\ (\A t \in Tickers : ~g1.tup[t]) THEN BsDrop(g1) ELSE <<>>)
                 [] tk.k = "UPGRADE" ->
-                      IF g.dead THEN push(g, <<Tok("EXIT")>>)
+                      (* Weak::upgrade fails as soon as no strong reference is left, i.e. from the moment the last one is released *)
+                      IF g.dead \/ (g.handles = 0 /\ \A t \in Tickers : ~g.tup[t]) THEN push(g, <<Tok("EXIT")>>)
                       ELSE push([g EXCEPT !.tup[x[2]] = TRUE], <<Tok("LS"), Tok("TK_CHECKFIN")>>)
                 [] tk.k = "TK_CHECKFIN" ->
                       IF g.fin THEN push(g, <<Tok("US"), Tok("DROPARC"), Tok("EXIT")>>)
@@ -131,6 +136,11 @@ Run(g, x) ==
 
 Threads(g) == {<<"c", c>> : c \in Callers} \cup {<<"t", t>> : t \in {u \in Tickers : g.tstate[u] = "live"}}
 
+(* a waiting ticker is woken by a notification (the condition is then evaluated again) or by the time-out *)
+WaitWake(g, x) ==
+    IF g.notified[x[2]] THEN {Run(SetStack([g EXCEPT !.notified[x[2]] = FALSE], x, <<TokT("LF", x[2]), Tok("TK_COND")>> \o Tail(Stack(g, x))), x)} ELSE {}
+WaitTimeout(g, x) == {Run(SetStack(g, x, <<TokT("LF", x[2]), Tok("TK_AFTERTIMEOUT")>> \o Tail(Stack(g, x))), x)}
+
 (* Outcomes of executing the parking token at the top of x's stack: a set of successor states. *)
 StepOf(g, x) ==
     LET s == Stack(g, x) IN
@@ -141,7 +151,8 @@ StepOf(g, x) ==
          IN CASE tk.k = "BEGIN" -> {cont(g)}
               [] tk.k = "LK" -> IF g.K = 0 THEN {cont([g EXCEPT !.K = me])} ELSE {}
               [] tk.k = "LS" -> IF g.S = 0 THEN {cont([g EXCEPT !.S = me])} ELSE {}
-              [] tk.k = "WM" -> IF g.M = 0 THEN {cont([g EXCEPT !.M = me])} ELSE {}
+              [] tk.k = "WM" -> IF g.M = 0 /\ g.MR = {} THEN {cont([g EXCEPT !.M = me])} ELSE {}
+              [] tk.k = "RM" -> IF g.M = 0 THEN {cont([g EXCEPT !.MR = @ \cup {me}])} ELSE {}
               [] tk.k = "LF" -> IF g.F[tk.t] = 0 THEN {cont([g EXCEPT !.F[tk.t] = me])} ELSE {}
               [] tk.k = "NOTIFY" ->
                     (* a notification reaches the ticker only if it is waiting right now; otherwise it is lost *)
@@ -153,10 +164,7 @@ StepOf(g, x) ==
                          {cont([g EXCEPT !.nt = t, !.slot = t, !.tstate[t] = "live", !.tst[t] = <<Tok("START"), Tok("UPGRADE")>>])}
                     ELSE {cont(g)}                    \* bound reached: the call returns without a new ticker
               [] tk.k = "START" -> {cont(g)}
-              [] tk.k = "WAIT" ->
-                    (* woken by a notification (the condition is then evaluated again) or by the time-out *)
-                    (IF g.notified[x[2]] THEN {Run(SetStack([g EXCEPT !.notified[x[2]] = FALSE], x, <<TokT("LF", x[2]), Tok("TK_COND")>> \o Tail(s)), x)} ELSE {})
-                    \cup {Run(SetStack(g, x, <<TokT("LF", x[2]), Tok("TK_AFTERTIMEOUT")>> \o Tail(s)), x)}
+              [] tk.k = "WAIT" -> WaitWake(g, x) \cup WaitTimeout(g, x)
               [] OTHER -> {}
 
 IsTimeoutOnly(g, x) == Stack(g, x) # <<>> /\ Head(Stack(g, x)).k = "WAIT" /\ ~g.notified[x[2]]
@@ -195,5 +203,5 @@ NoTickAfterFinish == ~G.tickAfterFin
 SlotOK == G.slot = 0 \/ G.tstate[G.slot] # "none"
 LocksOK == G.S \in {0} \cup Callers \cup {100 + t : t \in Tickers} /\ G.handles >= 0
 (* when everything is done every ticker thread has exited and the state was dropped exactly once *)
-CleanEnd == AllDone(G) => (G.dead /\ G.S = 0 /\ G.K = 0 /\ G.M = 0)
+CleanEnd == AllDone(G) => (G.dead /\ G.S = 0 /\ G.K = 0 /\ G.M = 0 /\ G.MR = {})
 =============================================================================
